@@ -240,10 +240,67 @@ def r06d(ctx, run):
         raise LookupError("const_data call sites: %d" % n)
 
 
+def r06e(ctx, run):
+    """the diagnostic renderer is handed an inclusive end position; for an EMPTY range (missing-argument and similar diagnostics) `end - 1`
+    lies before the start - on the previous line when the range sits at column 0 - and the snippet code slices a line beyond its length.
+    Diagnostic::display is evaluated abstractly for an empty and a non-empty range: the position given to line_col for the end must not
+    precede the start."""
+    from symint import SymInterp, Lin, sym, to_lin
+    from absint import Obj, Term, Variant, Panic, CannotEstablish
+    disp = ctx.syn.fn("Diagnostic::display", "diagnostics/src/lib.rs")
+    S = sym("start")
+    for desc, length in (("an empty range", 0), ("a range of 3 bytes", 3)):
+        asked = []
+
+        class DI(SymInterp):
+            def default_method(self, recv, m, args, e):
+                if isinstance(recv, Obj) and recv.name == "range":
+                    if m == "start":
+                        return S
+                    if m == "end":
+                        return to_lin(S).add(to_lin(length))
+                    if m == "is_empty":
+                        return length == 0
+                    if m == "len":
+                        return length
+                if m == "line_col":
+                    asked.append(args[0])
+                    return (Variant("LineNr", {"0": Term("l", len(asked))}), Variant("ColNr", {"0": Term("c", len(asked))}))
+                if m == "range" and isinstance(recv, Obj) and recv.name in ("self", "help"):
+                    return Obj("range")
+                if m in ("severity", "arrow", "message", "help"):
+                    if m == "message":
+                        return (False, "msg")
+                    if m == "help":
+                        return None
+                    return Term(m)
+                return super().default_method(recv, m, args, e)
+        it = DI(funcs={"TextSize::from": lambda i, a: a[0], "TextSize::new": lambda i, a: a[0], "input_snippet": lambda i, a: None},
+                macros={"format": lambda i, e, env: "fmt", "vec": lambda i, e, env: []})
+        names = disp.param_names()
+        env = {"self": Obj("self")}
+        for n in names[1:]:
+            env[n] = Term(n)
+        env["with_colors"] = False
+        try:
+            it.run_fn(disp, env)
+        except (Panic, CannotEstablish) as c:
+            if len(asked) < 2:
+                run.finding("Diagnostic::display", "end-position:" + desc, disp.file, disp.ln, "cannot establish the end position display computes for %s: %s" % (desc, getattr(c, "what", c)))
+                continue
+        start_pos, end_pos = asked[0], asked[1]
+        d = to_lin(end_pos).add(to_lin(start_pos), -1)
+        good = isinstance(d, int) and d >= 0
+        run.check(good, disp.site(), "%s: inclusive end position = start %+d" % (desc, d if isinstance(d, int) else 0), "Diagnostic::display", "end-position:" + desc, disp.file, disp.ln,
+                  "for %s display asks line_col for the end position %r, which is before the start %r: when the range sits at column 0 the end falls on the previous "
+                  "line's newline and the snippet code slices that line beyond its length (panic instead of a diagnostic)" % (desc, end_pos, start_pos))
+
+
 def rules(ctx):
     return [
         Rule("R06.a", "the parser cannot loop without consuming input, has no left recursion, and never bumps a trivia token (C23 R23.a/b/f)", 40, r06a),
         Rule("R06.b", "every todo!()/unimplemented!() reachable from main is triaged; new reachable sites are violations", 3, r06b),
         Rule("R06.d", "const evaluation sites that panic without a value only see kinds const_data can evaluate (classifier vs evaluator, belief/use)", 3, r06d),
+        Rule("R06.e", "the renderer's inclusive end position never precedes the start (empty ranges)", 2, r06e),
         Rule("R06.c", "no assert that a named global is non-polymorphic while inference admits polymorphic functions as values", 6, r06c),
     ]
